@@ -51,7 +51,7 @@ ASSUMPTIONS = [
 def _session_plan(seed, session, conf):
     rng = random.Random(f"{seed}:{PROP}:{session}")
     k = conf["workers"]
-    cfgs = fleet.draw_configs(rng, k)
+    cfgs = fleet.draw_configs(rng, k, optimize_all=(session % 3 == 1))
     recipes = []
     for i in range(conf["single"]):
         r = srecipe.gen_recipe(random.Random(f"{seed}:{PROP}:{session}:s{i}"),
@@ -117,7 +117,7 @@ def run_session(task):
     seed, session, conf = task
     t0 = time.monotonic()
     cfgs, recipes, plans = _session_plan(seed, session, conf)
-    workers = [fleet.Worker(c["hashseed"], c["prelude"], f"{session}.{i}")
+    workers = [fleet.Worker.from_config(c, f"{session}.{i}")
                for i, c in enumerate(cfgs)]
     res = {"session": session, "records": 0, "violations": [], "fps": [],
            "probe_diff": 0, "probes": 0, "errors": collections.Counter(),
@@ -255,7 +255,7 @@ def _hist(plan, upto, recipes):
 # {{{ replay / confirm
 
 def _produce(cfg, recipe_entry, history=None, recipes=None):
-    w = fleet.Worker(cfg["hashseed"], cfg["prelude"], "replay")
+    w = fleet.Worker.from_config(cfg, "replay")
     try:
         if history:
             for kind, arg in history[:-1]:
@@ -270,7 +270,7 @@ def _produce(cfg, recipe_entry, history=None, recipes=None):
 
 def _world_differs(cfgs, rc):
     from simkit import procranks
-    ws = [fleet.Worker(c["hashseed"], c["prelude"], f"w{i}")
+    ws = [fleet.Worker.from_config(c, f"w{i}")
           for i, c in enumerate(cfgs)]
     try:
         ref = ws[0].call("c17_multi", recipe=rc, sim_seed=0, fixed=True)
